@@ -194,7 +194,6 @@ func PhiBad(b []byte) (byte, error) {
 	return b[3], nil
 }
 
-
 // ---- counted loops: the exact range of the values the body sees
 func CountGood() (n int) {
 	for i := range 256 {
